@@ -189,7 +189,7 @@ def lines_for(fam, hist):
 
 
 def correspondence(ctx):
-    maxlen = ctx.n(2, 3)
+    maxlen = 3 if ctx.thorough else 2          # (a length, not a sample size: never scaled)
     cap = ctx.n(1500, 12000)
     lines, expected, meta = [], [], []
     dist = {}
@@ -426,7 +426,7 @@ def search(ctx, focus=None):
             f = check_warning_reaches_reader(reader, key)
             if f:
                 failures.append(f)
-    maxlen = ctx.n(2, 3)
+    maxlen = 3 if ctx.thorough else 2          # (a length, not a sample size: never scaled)
     cap = ctx.n(1500, 12000)
     for fam in FAMILIES:
         for hist in histories(fam, maxlen, ctx.rng, cap):
